@@ -10,7 +10,7 @@ trap 'rm -rf "$d"' EXIT
 rsync -a --exclude .git /repo/ "$d/"
 (cd "$d" && git init -q . 2>/dev/null; git -C "$d" apply --whitespace=nowarn "$patch") || { echo "patch does not apply"; exit 2; }
 for p in "$@"; do
-  out=$(bin/mcpcheck -property $p -repo "$d" -no-evidence -whole 2>&1)
+  out=$(${MCPCHECK_BIN:-bin/mcpcheck} -property $p -repo "$d" -no-evidence -whole 2>&1)
   n=$(echo "$out" | grep -c "^MUTANT-REPORT")
   echo "$p: $n reports"
   echo "$out" | grep "^MUTANT-REPORT" | sed 's/^MUTANT-REPORT /    /' | cut -c1-260
